@@ -2411,7 +2411,7 @@ class DenseArrayBase(
 
     def verify(self):
         data_len = len(self.data.data)
-        elt_size = self.elt_type.size
+        elt_size = self.elt_type.compile_time_size
         if data_len % elt_size:
             raise VerifyException(
                 f"Data length of {self.name} ({data_len}) not divisible by element "
@@ -2485,7 +2485,7 @@ class DenseArrayBase(
             return FloatAttr.unpack(self.elt_type, self.data.data, len(self))
 
     def __len__(self) -> int:
-        return len(self.data.data) // self.elt_type.size
+        return len(self.data.data) // self.elt_type.compile_time_size
 
     @staticmethod
     def constr(
